@@ -15,7 +15,7 @@ from oqv.astutil import branch_context, call_name, method_call
 from oqv.cfg import CFG
 from oqv.dataflow import DefUse, expand, form_at
 from oqv.forms import Poly, eval_form
-from oqv.model import AnalysisError, Program, Unit, dotted, norm, walk_local
+from oqv.model import AnalysisError, Program, Unit, dotted, norm, walk_local, kw_of
 from oqv.report import Check
 
 ROUNDERS = {"round", "rint", "around", "round_"}
@@ -119,6 +119,14 @@ def g1(prog: Program, chk: Check) -> None:
                 continue
             key = (short, u.qual.split(":")[1])
             if key in G1_EXCEPTIONS:
+                # the exemption rests on "rounded up": check that premise on every run
+                up = any(isinstance(y, ast.Call) and _fn_last(y) == "ceil"
+                         for y in ast.walk(conv))
+                if not up:
+                    chk.add("G1", u, construct, False,
+                            f"{key[1]} is exempt because it rounds its estimate UP (conservative); "
+                            f"this conversion does not pass through ceil()", conv)
+                    continue
                 chk.add("G1", u, construct, None, node=conv,
                         exception_reason=G1_EXCEPTIONS[key])
                 continue
@@ -187,7 +195,7 @@ def label_assignments(u) -> List[ast.Assign]:
     names = set()
     for c in walk_local(u.node):
         if isinstance(c, ast.Call) and (call_name(c) or "").endswith("Dynamics"):
-            v = next((k.value for k in c.keywords if k.arg == "times"), None)
+            v = kw_of(c).get("times", None)
             if v is None and c.args:
                 v = c.args[0]
             if v is not None:
